@@ -141,7 +141,7 @@ fn gen_c15(seed: u64, idx: usize, _tier: Tier) -> C15Scenario {
                         b.extend_from_slice(*rng.pick(&[&b" caf\xe9"[..], &b" \xe2\x82"[..], &b" \x00\xff\xfe"[..]]));
                     }
                     b.push(b'\n');
-                    OutStep { fd, hex: hex(&b), pause_ms: 0 }
+                    OutStep { fd, hex: hex(&b), pause_ms: 0, close: false }
                 })
                 .collect();
             Behav { command: c.command.clone(), target: c.target.clone(), outs, code: 0, exit_pause_ms: 0 }
@@ -501,7 +501,7 @@ fn gen_c20(seed: u64, idx: usize, tier: Tier) -> C20Scenario {
                     let pad = if rng.chance(1, 3) { "é✓日本語ß".repeat(rng.below(12)) } else { "p".repeat(rng.below(60)) };
                     s.push_str(&format!("{}@{} fd{} seq{} {}\n", cf.command, cf.target, fd, seq[fd as usize], pad));
                 }
-                OutStep { fd, hex: hex(s.as_bytes()), pause_ms: 0 }
+                OutStep { fd, hex: hex(s.as_bytes()), pause_ms: 0, close: false }
             })
             .collect();
         script.behav.push(Behav { command: cf.command.clone(), target: cf.target.clone(), outs, code: 0, exit_pause_ms: 0 });
